@@ -20,7 +20,7 @@ RULE = (
     "non-trivial = >=2 plates of unequal sizes or >=4 thetas"
 )
 ASSUMPTIONS = ["means bounded by a few hundred so squares stay finite", "scalar reference uses math.fsum and a stable log-sum-exp"]
-REQUIRED = {"configs_with_more_than_5000_triples": {"quick": 10, "thorough": 200}, "cli_end_to_end_runs": {"quick": 5, "thorough": 50}, "scorer_runs_on_overlapping_views": {"quick": 10, "thorough": 150}, "production_size_plates": {"quick": 40, "thorough": 800}, "plate_scores_vs_reference": {"quick": 10000, "thorough": 200000}, "metamorphic_checks": {"quick": 10000, "thorough": 200000}, "scorer_entry_runs": {"quick": 800, "thorough": 15000}, "all_zero_distance_cases": {"quick": 10, "thorough": 200}}
+REQUIRED = {"work_array_scale_runs": {"quick": 1, "thorough": 1}, "configs_with_more_than_5000_triples": {"quick": 10, "thorough": 200}, "cli_end_to_end_runs": {"quick": 5, "thorough": 50}, "scorer_runs_on_overlapping_views": {"quick": 10, "thorough": 150}, "production_size_plates": {"quick": 40, "thorough": 800}, "plate_scores_vs_reference": {"quick": 10000, "thorough": 200000}, "metamorphic_checks": {"quick": 10000, "thorough": 200000}, "scorer_entry_runs": {"quick": 800, "thorough": 15000}, "all_zero_distance_cases": {"quick": 10, "thorough": 200}}
 N_CFG = {"quick": 960, "thorough": 16000}
 TOL = 1e-9
 
@@ -32,6 +32,37 @@ def same(a, b, tol=TOL):
     if not (np.isfinite(a) and np.isfinite(b)):
         return False
     return abs(a - b) <= tol * (1.0 + abs(b))
+
+
+def work_array_scale(rec, rng):
+    """One configuration at the scale of a real scoring job: ten plates, one of them with 4000 experiments, 12 posterior
+    samples (220 triples, all enumerated) - about 9 million (plate, triple, experiment) cells in the kernel's work
+    arrays. The big plate and a single-experiment plate are compared with the direct estimator, alone and together."""
+    from batchie.scoring import gaussian_dbal as G
+
+    T = 12
+    sizes = [4000, 1] + [int(x) for x in rng.integers(2, 30, size=8)]
+    means = [rng.normal(size=(T, e)) * 0.3 for e in sizes]
+    hetero = [np.exp(rng.uniform(np.log(0.3), np.log(3.0), size=(T, e))) for e in sizes]
+    d = np.abs(rng.normal(size=(T, T)))
+    d = d + d.T
+    np.fill_diagonal(d, 0.0)
+    budget = comb(T, 3)
+    w = {"n_thetas": T, "plate_sizes": sizes, "budget": budget, "scale": "work arrays of ~9e6 cells"}
+    rec.case(("work-array-scale", tuple(sizes)), nontrivial=True)
+    try:
+        together = G.dbal_fast_gaussian_scoring_heteroscedastic(means, hetero, d, np.random.default_rng(1), max_combos=budget)
+        alone = G.dbal_fast_gaussian_scoring_heteroscedastic([means[1]], [hetero[1]], d, np.random.default_rng(2), max_combos=budget)
+    except Exception as e:
+        rec.violation("C05/heteroscedastic/raises", "scoring at scale raised %r" % (e,), w)
+        return
+    rec.count("work_array_scale_runs")
+    for p in (0, 1):
+        ref = dbal_ref.plate_score(means[p].tolist(), hetero[p].tolist(), d.tolist())
+        rec.count("plate_scores_vs_reference")
+        rec.check(same(float(together[p]), ref, 1e-8), "C05/heteroscedastic/differs-from-direct-estimator", lambda: "at scale: plate %d (size %d of sizes %r, %d thetas) scored %r, direct evaluation gives %r" % (p, sizes[p], sizes, T, float(together[p]), ref), w)
+    rec.count("metamorphic_checks")
+    rec.check(same(float(alone[0]), float(together[1]), 1e-10), "C05/metamorphic/depends-on-company", lambda: "the single-experiment plate scores %r alone and %r next to a 4000-experiment plate" % (float(alone[0]), float(together[1])), w)
 
 
 def cli_end_to_end(rec, tier, rng):
@@ -325,6 +356,8 @@ def run_shard(rec, tier, seed, shard, nshards):
             rec.sample({"n_thetas": T, "plate_sizes": sizes, "heteroscedastic_scores": [float(x) for x in het], "reference": [float(x) for x in ref_het]})
 
     cli_end_to_end(rec, tier, rng)
+    if shard == 0:
+        work_array_scale(rec, rng)
 
     # ---------------- real posterior samples through the scorer (homoscedastic in practice)
     for _ in range(6 if tier == "quick" else 40):
